@@ -461,10 +461,13 @@ def negative_controls(wd, traces):
                 variant("block_reported_damaged", damage), variant("sequence_numbers_swapped", seq_swap)]
     nd = os.path.join(wd, "neg")
     os.makedirs(nd, exist_ok=True)
-    for k, (name, c) in enumerate(variants):
-        acc, rej = _strict_part((900 + k, [(run, c)], nd, 1))
-        vio = _contract_part((900 + k, [(run, c)], nd))
-        results[name] = {"trace_spec_rejects": bool(rej), "contract_clauses": sorted({x for v in vio for x in v["clauses"]})}
+    with ThreadPoolExecutor(max_workers=8) as ex:
+        fs = [ex.submit(_strict_part, (900 + k, [(run, c)], nd, 1)) for k, (name, c) in enumerate(variants)]
+        fc = [ex.submit(_contract_part, (900 + k, [(run, c)], nd)) for k, (name, c) in enumerate(variants)]
+        for k, (name, c) in enumerate(variants):
+            acc, rej = fs[k].result()
+            vio = fc[k].result()
+            results[name] = {"trace_spec_rejects": bool(rej), "contract_clauses": sorted({x for v in vio for x in v["clauses"]})}
     if not all(v["trace_spec_rejects"] for v in results.values()):
         raise ToolError("negative controls: PoolTrace accepted a corrupted trace: %s" % results)
     if "exclusive" not in results["arena_of_live_guard_duplicated"]["contract_clauses"] or \
@@ -481,7 +484,7 @@ def check_c19(tier):
     t0 = time.time()
     out = Outcome(PID)
     thorough = tier == "thorough"
-    wd = workdir(PID)
+    wd = workdir("%s-%d" % (PID, os.getpid()))
     sd = seed()
     rng = random.Random(sd)
     with ThreadPoolExecutor(max_workers=16) as ex:
@@ -523,7 +526,7 @@ def check_c19(tier):
                 any(e[0] != x[0] or e[1] != x[1] or x[2] not in EXPECT_POINT[e[2]] for e, x in zip(r["expect"], executed))
             if bad:
                 sched_mismatch.append(r["run"])
-    accepted, rejected, viols = validate(wd, traces, nproc=6, part_events=4000 if not thorough else 12000)
+    accepted, rejected, viols = validate(wd, traces, nproc=6, part_events=max(4000, min(nev // 6 + 1, 25000)))
     log("[C19] %d events validated: %d runs accepted, %d rejected, %d contract violations (%.0fs)"
         % (nev, len(accepted), len(rejected), len(viols), time.time() - t0))
     acc_set = set(accepted)
@@ -550,8 +553,9 @@ def check_c19(tier):
                        % ("made no progress" if kind == "no-progress" else "panicked or aborted", c["rc"]),
                        "stdout": c["stdout"], "stderr": c["stderr"], "harness_input": c["lines"],
                        "tlc_schedule": by_run[c["run"]].get("hist")})
-    drift = [x for x in rejected if x["run"] not in viol_runs]
-    drift_runs = sorted({x["run"] for x in drift} | (set(sched_mismatch) - set(viol_runs)))
+    unexamined = [x["run"] for x in rejected if x["event"] is None]
+    drift = [x for x in rejected if x["run"] not in viol_runs and x["event"] is not None]
+    drift_runs = sorted({x["run"] for x in drift} | (set(sched_mismatch) - set(viol_runs) - set(unexamined)))
     if drift_runs:
         log("MODEL-DRIFT %s: %d recorded executions satisfy every C19 clause but are not behaviours of spec/Pool.tla "
             "(or did not follow the forced schedule), e.g. %s" % (PID, len(drift_runs), json.dumps(drift[:2], default=str)[:1200]))
@@ -576,6 +580,7 @@ def check_c19(tier):
         "forced_runs_validated_in_execution_order": nforced - seq_merged if not sched_mismatch else None,
         "accepted_by_trace_spec": len(accepted), "rejected_by_trace_spec": len(rejected),
         "contract_violations": len(viol_runs), "model_drift_runs": len(drift_runs),
+        "not_examined_by_trace_spec_after_rejections": len(unexamined),
         "schedule_not_followed_runs": len(sched_mismatch), "crashes_or_no_progress": len(crashes),
         "negative_controls": neg,
         "explanation": "TLC explores every interleaving of Pool.tla for the instances listed under model_checking (invariants: exclusivity, "
